@@ -67,8 +67,10 @@ def run(ctx):
         cases.append(("odd_parity", (rng.getrandbits(32),)))
     for v in (0, 1, 0xFFFFFFFF, 0x80000000, 0x7FFFFFFF, 0xFFFF0000, 0x0000FFFF):
         cases.append(("odd_parity", (v,)))
-    return fw.call_result(
+    _res = fw.call_result(
         cases, check_impl=check_impl, nontrivial=lambda fn, a, o: o[0] == "OK",
         rule="all 256 byte values at key positions of 8/16/24-byte keys (every position in thorough), all 32 variants "
              "x 3 sizes + out-of-domain sizes/variants, xor over lengths 0..64 with unequal masks, odd_parity over "
              "16-bit values (all in thorough) and random 32-bit values; non-trivial = distinct successful calls")
+    fw.inplace_history(_res, rng, [c for c in cases if core.impl_call(c[0], c[1])[0] == "OK"][:300], check_impl)
+    return _res
